@@ -485,6 +485,13 @@ class FSM:
         self.transitioning = Status.active
         return
 
+    def step_is_done(self):
+        # before= of the transitions that a finished background step takes: like
+        # reset and save_prior_state, refuse while the step is still outstanding
+        self.transitioning = Status.exiting
+        self.transitioning = Status.active
+        return
+
     def save_prior_state(self):
         self.transitioning = Status.exiting
         self.__prior = self.state
